@@ -58,6 +58,12 @@ Definition py_eq (a b : pv) : res pv :=
   | _, _ => Err ENotImpl
   end.
 
+Definition py_ne (a b : pv) : res pv :=
+  match as_int a, as_int b with
+  | Some x, Some y => Ok (VBool (negb (x =? y)))
+  | _, _ => Err ENotImpl
+  end.
+
 (* bytes[a:b] with integer bounds: negative bounds count from the end, everything is clamped *)
 Definition norm_index (n i : Z) : Z := if i <? 0 then Z.max 0 (n + i) else Z.min i n.
 Definition py_slice (v a b : pv) : res pv :=
